@@ -8,6 +8,8 @@
 import PS.Proofs.Dfta
 import PS.Proofs.DftaUnion
 import PS.Proofs.DftaQuot
+import PS.Proofs.DftaMin
+import PS.Proofs.DftaMinimal
 namespace PS.C07
 open PS DFTA
 
@@ -100,8 +102,8 @@ theorem C07_min_det (f : List Q → X) (A : DFTA σ Q) (cls0 cls1 : List Q) (fue
     by its final partition `st`, and whenever that partition passes the congruence certificate
     — which the driver evaluates on the model's final partition in every correspondence run —
     the minimised automaton accepts exactly the trees the input accepts.
-    (That the refinement loop always ends in a partition passing the certificate is Appendix
-    B.3 of DESIGN.md; it is NOT machine-checked here, see meta "explanation".) -/
+    (That the refinement loop always ends in a partition passing the certificate is now
+    proved: `C07_min_cert` below, whence the unconditional `C07_min_lang`.) -/
 theorem C07_min_lang_cert (f : List Q → X) (A : DFTA σ Q) (hd : A.Det) (cls0 cls1 : List Q)
     (fuel : Nat) (M : DFTA σ X) (h : minimiseCore f A cls0 cls1 fuel = some M) :
     ∃ st, minimiseState A cls0 cls1 fuel = some st ∧
@@ -146,6 +148,120 @@ example : (minimiseState mod4 [0, 2] [1, 3] 6).map
 example : congruenceCert mod4 (fun q => q % 3) (stateSet mod4) = false := by decide
 end Example
 
+/-! ### literal for the non-vacuity examples of the `minimise` theorems
+  trees over {a/0, b/0, f/2}; a partial table with a binary letter; states 2 and 3 are
+  equivalent, 0 and 1 are not (f(0,1) is defined, f(1,1) is not). -/
+namespace MinExample
+def par : DFTA String Nat :=
+  { rules := [(("a", []), 0), (("b", []), 1), (("f", [0, 1]), 2), (("f", [1, 0]), 3),
+              (("f", [2, 2]), 0), (("f", [2, 3]), 0), (("f", [3, 2]), 0), (("f", [3, 3]), 0)],
+    finals := [2, 3] }
+/-- a three-state automaton for the same language: the quotient of `par` by 2 ~ 3 -/
+def par3 : DFTA String Nat := mapStates (fun q => if q = 3 then 2 else q) par
+example : par3.rules = [(("a", []), 0), (("b", []), 1), (("f", [0, 1]), 2), (("f", [1, 0]), 2),
+    (("f", [2, 2]), 0)] ∧ par3.finals = [2, 2] := by decide
+end MinExample
+
+/-- **minimise, the certificate always holds.** The partition the refinement loop ends with
+    (for every order of the two initial classes and every number of passes after which it
+    returns) passes the executable congruence certificate, for every injective naming `f` of
+    the classes — provided every state the automaton mentions is reachable (`AllReach`, the
+    part of "reduced" the code needs: without it the Python raises `KeyError`). -/
+theorem C07_min_cert (f : List Q → X) (hf : ∀ a b, f a = f b → a = b) (A : DFTA σ Q) (hd : A.Det)
+    (hr : AllReach A) (cls0 cls1 : List Q) (h01 : InitOK A cls0 cls1) (fuel : Nat) (st : MinState Q)
+    (h : minimiseState A cls0 cls1 fuel = some st) :
+    congruenceCert A (fun q => f (clsTuple st q)) (stateSet A) = true :=
+  minimiseState_cert A hd hr cls0 cls1 h01 fuel st h f hf
+
+/-- **minimise, language** (general form: every order of the two initial classes, every
+    injective `mapping`, every number of passes after which the loop returns). -/
+theorem C07_min_lang_core (f : List Q → X) (hf : ∀ a b, f a = f b → a = b) (A : DFTA σ Q)
+    (hd : A.Det) (hr : AllReach A) (cls0 cls1 : List Q) (h01 : InitOK A cls0 cls1) (fuel : Nat)
+    (M : DFTA σ X) (h : minimiseCore f A cls0 cls1 fuel = some M) (t : Tree σ) :
+    M.accepts t = A.accepts t :=
+  minimiseCore_lang f hf A hd hr cls0 cls1 h01 fuel M h t
+
+/-- **minimise, language.** Minimising a deterministic automaton all of whose states are
+    reachable (in particular a reduced one, `C07_reduce_allReach`) leaves its language
+    unchanged. -/
+theorem C07_min_lang (A : DFTA σ Q) (hd : A.Det) (hr : AllReach A) (M : DFTA σ (List Q))
+    (h : minimise A = some M) (t : Tree σ) : M.accepts t = A.accepts t :=
+  minimiseCore_lang id (fun _ _ e => e) A hd hr _ _ (initOK_filter A) _ M h t
+
+example : MinExample.par.Det ∧ AllReach MinExample.par ∧
+    (minimise MinExample.par).map (fun M => M.rules) =
+      some [(("a", []), [0]), (("b", []), [1]), (("f", [[0], [1]]), [2, 3]), (("f", [[1], [0]]), [2, 3]),
+            (("f", [[2, 3], [2, 3]]), [0])] := by
+  unfold DFTA.Det AllReach; decide
+
+/-- **minimise, termination.** The `while not finished` loop ends: every pass but the last
+    creates a class, classes are disjoint non-empty sets of reachable states (but possibly the
+    two initial ones), so `|states| + 1` passes are always enough — the model's `|states| + 2`
+    never runs out, for ANY automaton (no hypothesis), any class order and any `mapping`. -/
+theorem C07_min_terminates_core (f : List Q → X) (A : DFTA σ Q) (cls0 cls1 : List Q)
+    (h01 : InitOK A cls0 cls1) (fuel : Nat) (hfuel : A.states.length + 1 ≤ fuel) :
+    ∃ M, minimiseCore f A cls0 cls1 fuel = some M :=
+  minimiseCore_terminates f A cls0 cls1 h01 fuel hfuel
+
+theorem C07_min_terminates (A : DFTA σ Q) : ∃ M, minimise A = some M :=
+  minimiseCore_terminates id A _ _ (initOK_filter A) _ (by omega)
+
+example : ∃ M, minimise MinExample.par = some M ∧ numStates M = 3 := ⟨_, rfl, by decide⟩
+
+/-- **reduce returns a trim automaton** (`Trim`: every state it mentions is reachable, and every
+    reachable state is productive), i.e. the precondition of the `minimise` theorems. -/
+theorem C07_reduce_trim (A : DFTA σ Q) (hd : A.Det) : Trim (reduce A) := trim_reduce A hd
+
+theorem C07_reduce_allReach (A : DFTA σ Q) (hd : A.Det) : AllReach (reduce A) := (trim_reduce A hd).1
+
+example : Trim (reduce Example.odd) ∧ ¬ AllReach Example.odd := by
+  unfold Trim AllReach; decide
+
+/-- **minimise, minimality** (general form: every class order, injective `mapping`, number of
+    passes).  No deterministic automaton with the same language has fewer states than the
+    result of minimising a trim automaton (`numStates` = `len(dfta.states)`). -/
+theorem C07_min_minimal_core (f : List Q → X) (hf : ∀ a b, f a = f b → a = b) (A : DFTA σ Q)
+    (hd : A.Det) (htrim : Trim A) (cls0 cls1 : List Q) (h01 : InitOK A cls0 cls1) (fuel : Nat)
+    (M : DFTA σ X) (h : minimiseCore f A cls0 cls1 fuel = some M)
+    (B : DFTA σ Q₂) (hb : B.Det) (hl : ∀ t, B.accepts t = A.accepts t) :
+    numStates M ≤ numStates B :=
+  minimiseCore_minimal f hf A hd htrim cls0 cls1 h01 fuel M h B hb hl
+
+/-- **minimise, minimality.** -/
+theorem C07_min_minimal (A : DFTA σ Q) (hd : A.Det) (htrim : Trim A) (M : DFTA σ (List Q))
+    (h : minimise A = some M) (B : DFTA σ Q₂) (hb : B.Det) (hl : ∀ t, B.accepts t = A.accepts t) :
+    numStates M ≤ numStates B :=
+  minimiseCore_minimal id (fun _ _ e => e) A hd htrim _ _ (initOK_filter A) _ M h B hb hl
+
+/-- non-vacuity: `par3` (3 states) has the language of `par` (4 states; it is its quotient by
+    2 ~ 3, certificate by evaluation), `par` is trim, and the theorem bounds the 3 states of
+    `minimise par` by the 3 states of `par3`. -/
+example : ∃ M, minimise MinExample.par = some M ∧ numStates M = 3 ∧ numStates MinExample.par3 = 3 ∧
+    numStates M ≤ numStates MinExample.par3 := by
+  have hd : MinExample.par.Det := by unfold DFTA.Det; decide
+  have hd3 : MinExample.par3.Det := by unfold DFTA.Det; decide
+  have htrim : Trim MinExample.par := by unfold Trim AllReach; decide
+  refine ⟨_, rfl, by decide, by decide, C07_min_minimal _ hd htrim _ rfl _ hd3 ?_⟩
+  intro t
+  exact C07_quotient _ _ hd (by decide) t
+
+/-- **reduce, then minimise** (how the library uses it): the result exists, is deterministic,
+    has the language of the original automaton and the least number of states among all
+    deterministic automata with that language. -/
+theorem C07_min_reduce (A : DFTA σ Q) (hd : A.Det) :
+    ∃ M, minimise (reduce A) = some M ∧ M.Det ∧ (∀ t, M.accepts t = A.accepts t) ∧
+      ∀ (B : DFTA σ Q₂), B.Det → (∀ t, B.accepts t = A.accepts t) → numStates M ≤ numStates B := by
+  obtain ⟨M, hM⟩ := C07_min_terminates (reduce A)
+  have hd' := reduce_det A hd
+  have htrim := trim_reduce A hd
+  refine ⟨M, hM, C07_min_det id (reduce A) _ _ _ M hM, ?_, ?_⟩
+  · intro t
+    rw [C07_min_lang (reduce A) hd' htrim.1 M hM t, accepts_reduce A hd t]
+  · intro B hb hl
+    exact C07_min_minimal (reduce A) hd' htrim M hM B hb (fun t => by rw [hl, accepts_reduce A hd t])
+
+example : ∃ M, minimise (reduce Example.odd) = some M ∧ numStates M = 2 := ⟨_, rfl, by decide⟩
+
 /-- **Finding C07-F1** (repaired by proposed_fixes/C07-F1.diff).  On the two rules `z -> 0`,
     `s(0) -> 0` with no final state the language is empty, yet the old `__remove_unproductive__`
     keeps both rules (state 0 is "consumed" by its own cycle): `reduce()` did not return a trim
@@ -155,5 +271,19 @@ def deadCycle : DFTA String Nat := { rules := [(("z", []), 0), (("s", [0]), 0)],
 theorem finding_C07_F1 :
     (removeUnproductiveOld (removeUnreachable deadCycle) 5).rules = deadCycle.rules ∧
     (reduce deadCycle).rules = [] := by decide
+
+/-- productivity (`Trim`, not only `AllReach`) is needed for `C07_min_minimal`: the dead cycle
+    (all states reachable, none productive, empty language) is "minimised" to one state while
+    the empty table, with the same language, has none.  (Not a defect: `minimise` is documented
+    for reduced automata, and `reduce` — with fix C07-F1 — returns the empty table here.) -/
+example : AllReach deadCycle ∧ ¬ Trim deadCycle ∧
+    (∃ M, minimise deadCycle = some M ∧ numStates M = 1) ∧
+    numStates ({ rules := [], finals := [] } : DFTA String Nat) = 0 ∧
+    ∀ t, ({ rules := [], finals := [] } : DFTA String Nat).accepts t = deadCycle.accepts t := by
+  refine ⟨by unfold AllReach; decide, by unfold Trim AllReach; decide, ⟨_, rfl, by decide⟩, by decide, ?_⟩
+  intro t
+  unfold accepts
+  cases run deadCycle t <;> cases run ({ rules := [], finals := [] } : DFTA String Nat) t <;>
+    simp [deadCycle]
 
 end PS.C07
